@@ -1,4 +1,7 @@
-//! Shared helpers: bit assembler, parity by bitwise long division, trace writer.
+//! rs1090 conformance harness, shared helpers: bit assembler, parity by bitwise long
+//! division, trace writer.  No oracle lives in this crate: every binary under src/bin
+//! drives the public API of rs1090 with inputs produced by TLC (or exhaustive sweeps) and
+//! records what the code did as an ndjson trace that a TLA+ trace specification judges.
 use serde_json::Value;
 use std::fs::File;
 use std::io::{BufRead, BufReader, BufWriter, Write};
@@ -139,4 +142,9 @@ impl Rng {
     pub fn below(&mut self, n: u64) -> u64 {
         self.next() % n
     }
+}
+
+/// Panics of the code under test are data: keep stderr quiet.
+pub fn quiet_panics() {
+    std::panic::set_hook(Box::new(|_| {}));
 }
